@@ -22,7 +22,7 @@ func TestC03(t *testing.T) {
 	mon.Main(t, mon.Check{
 		ID:          "C03",
 		Level:       "exploration",
-		Rule:        "real noise Machines over an in-memory duplex that records every byte each party writes. Mismatch cases: first-time (XX) handshakes whose two passphrase entropies differ in exactly one bit (all 112 single-bit differences over the run) or are unrelated; repeat (KK) handshakes in which the responder's stored initiator key is wrong, the initiator's stored responder key is wrong, both are wrong, one side stored its own key, or the initiator presents the paired public key without holding the private key; for all initiator/responder version ranges in {0,1,2}^4 with min<=max and auth payload sizes {0,1,498,499,65535,1 MiB}. Oracle on a mismatch: the responder returns an error having written zero bytes, the initiator returns an error, neither machine holds traffic keys, the initiator's auth-data callback never ran and its ConnData holds no payload, no stored remote key changed, and the auth payload marker (raw, hex, base64) is absent from every byte written. Control: the same configuration with matching secrets must complete whenever the version ranges intersect (otherwise the monitor would pass vacuously). One case in eight is a sequence on the same ConnData objects with the application callbacks installed: a version-2 pairing, then (a) an initiator with another static key and the passphrase calls the paired responder, (b) the paired initiator calls a responder with another static key and the passphrase, for the version ranges of the slice, (c) the paired parties reconnect as control; oracle as above plus: stored keys and auth data of the paired parties unchanged. Non-trivial = a mismatch case whose matching control completed; distinct = (pattern, mismatch kind, version ranges, payload size).",
+		Rule:        "real noise Machines over an in-memory duplex that records every byte each party writes. Mismatch cases: first-time (XX) handshakes whose two passphrase entropies differ in exactly one bit (all 112 single-bit differences over the run) or are unrelated; repeat (KK) handshakes in which the responder's stored initiator key is wrong, the initiator's stored responder key is wrong, both are wrong, one side stored its own key, or the initiator presents the paired public key without holding the private key; for all initiator/responder version ranges in {0,1,2}^4 with min<=max and auth payload sizes {0,1,498,499,65535,1 MiB}. Oracle on a mismatch: the responder returns an error having written zero bytes, the initiator returns an error, neither machine holds traffic keys, the initiator's auth-data callback never ran and its ConnData holds no payload, no stored remote key changed, and the auth payload marker (raw, hex, base64) is absent from every byte written. Control: the same configuration with matching secrets must complete whenever the version ranges intersect (otherwise the monitor would pass vacuously). One case in eight is a sequence on the same ConnData objects with the application callbacks installed: a version-2 pairing, then (a) an initiator with another static key and the passphrase calls the paired responder, (b) the paired initiator calls a responder with another static key and the passphrase, for the version ranges of the slice, (c) the paired parties reconnect as control; oracle as above plus: stored keys and auth data of the paired parties unchanged. The paired sequences end with two more first-time clients served from the responder's passphrase buffer (all-zero passphrase: must be refused; right passphrase: control). A few cases per run go through NoiseGrpcConn.ClientHandshake/ServerHandshake over a transport that honours read deadlines and stays open (real time, 5 s each): a mismatch with a silently aborting responder, and a responder whose peer says nothing - neither call may report success. Non-trivial = a mismatch case whose matching control completed; distinct = (pattern, mismatch kind, version ranges, payload size).",
 		Assumptions: []string{"the observable form of 'never released' is decided: bytes the responder wrote; no claim about computational secrecy", "scrypt cost lowered by the repository's own rpctest tag except for one production-parameter slice per run"},
 		NCases: func(tier string) int {
 			if tier == "thorough" {
